@@ -1,5 +1,6 @@
 import Rivaas.Spec.RealIP
 import Rivaas.Model.RealIPText
+import Rivaas.Model.RemoteAddr
 /-
 C18 — Client IP resolution cannot be spoofed by untrusted peers.
 Property theorems only (helper lemmas are marked `private`/`lemma_` and sit above the theorem
@@ -435,5 +436,177 @@ theorem clientIPRaw_meets_spec (r : RawReq) (hmh : 1 ≤ r.maxHops) (q : Req) (r
   exact clientIP_meets_spec q (by omega)
 
 example : splitAndTrim " 1.1.1.1 ,, 10.0.0.1,x ".toList = ["1.1.1.1".toList, "10.0.0.1".toList, ['x']] := by decide
+
+
+/-! ### the RemoteAddr layer: `net.SplitHostPort`, `clientIPFromRemoteAddr` -/
+
+theorem lemma_idxOf_none (c : Char) (s : Bytes) (h : c ∉ s) : idxOf c s = none := by
+  induction s with
+  | nil => rfl
+  | cons x xs ih =>
+    have hx : (x == c) = false := by
+      simp only [List.mem_cons, not_or] at h
+      simpa using fun e => h.1 e.symm
+    simp only [List.mem_cons, not_or] at h
+    simp [idxOf, hx, ih h.2]
+
+theorem lemma_idxOf_some_mem (c : Char) (s : Bytes) (k : Nat) (h : idxOf c s = some k) : c ∈ s := by
+  induction s generalizing k with
+  | nil => simp [idxOf] at h
+  | cons x xs ih =>
+    simp only [idxOf] at h
+    split at h
+    · rename_i hx; simp at hx; simp [hx]
+    · match hi : idxOf c xs with
+      | none => simp [hi] at h
+      | some j => exact List.mem_cons_of_mem _ (ih j hi)
+
+theorem lemma_idxOf_append (c : Char) (a b : Bytes) (h : c ∉ a) : idxOf c (a ++ c :: b) = some a.length := by
+  induction a with
+  | nil => simp [idxOf]
+  | cons x xs ih =>
+    simp only [List.mem_cons, not_or] at h
+    have hx : (x == c) = false := by simpa using fun e => h.1 e.symm
+    simp [idxOf, hx, ih h.2]
+
+theorem lemma_lastIdxOf_append (c : Char) (a b : Bytes) (h : c ∉ b) :
+    lastIdxOf c (a ++ c :: b) = some a.length := by
+  unfold lastIdxOf
+  have hr : (a ++ c :: b).reverse = b.reverse ++ c :: a.reverse := by simp
+  rw [hr, lemma_idxOf_append c b.reverse a.reverse (by simpa using h)]
+  simp only [Option.map_some, List.length_reverse, List.length_append, List.length_cons]
+  congr 1
+  omega
+
+theorem lemma_isSome_idxOf (c : Char) (s : Bytes) : (idxOf c s).isSome = true ↔ c ∈ s := by
+  constructor
+  · intro h
+    match hi : idxOf c s with
+    | none => simp [hi] at h
+    | some k => exact lemma_idxOf_some_mem c s k hi
+  · intro h
+    match hi : idxOf c s with
+    | none =>
+      exfalso
+      induction s with
+      | nil => simp at h
+      | cons x xs ih =>
+        simp only [idxOf] at hi
+        split at hi
+        · simp at hi
+        · rename_i hx
+          simp only [List.mem_cons] at h
+          rcases h with rfl | h
+          · simp at hx
+          · match hj : idxOf c xs with
+            | none => exact ih h hj
+            | some j => simp [hj] at hi
+    | some k => simp
+
+/-- a host or port text as the statement's forms use it: no colon, no bracket -/
+def Plain (s : Bytes) : Prop := ':' ∉ s ∧ '[' ∉ s ∧ ']' ∉ s
+
+/-- **`ip:port`** — for every host without colon/bracket (any IPv4 literal, any host name) and every port,
+    `clientIPFromRemoteAddr` yields exactly the host. -/
+theorem peerOf_host_port (host port : Bytes) (hh : Plain host) (hp : Plain port) (hne : host ≠ []) :
+    peerOf (host ++ ':' :: port) = host := by
+  obtain ⟨h1, h2, h3⟩ := hh
+  obtain ⟨p1, p2, p3⟩ := hp
+  have hhead : (host ++ ':' :: port).head? ≠ some '[' := by
+    cases host with
+    | nil => exact absurd rfl hne
+    | cons x xs =>
+      simp only [List.cons_append, List.head?_cons, ne_eq, Option.some.injEq]
+      intro e; exact h2 (by simp [e])
+  have hb1 : '[' ∉ host ++ ':' :: port := by simp [h2, p2]
+  have hb2 : ']' ∉ host ++ ':' :: port := by simp [h3, p3]
+  unfold peerOf splitHostPort
+  rw [lemma_lastIdxOf_append ':' host port p1]
+  have e1 : ((host ++ ':' :: port).head? == some '[') = false := by simpa using hhead
+  simp only [e1, Bool.false_eq_true, if_false, List.take_left']
+  rw [lemma_idxOf_none ':' host h1, lemma_idxOf_none '[' _ hb1, lemma_idxOf_none ']' _ hb2]
+  simp
+
+/-- **`[v6]:port`** — for every bracketed host without brackets inside (any IPv6 literal, zones included)
+    and every port, `clientIPFromRemoteAddr` yields exactly the text between the brackets. -/
+theorem peerOf_bracket_port (h6 port : Bytes) (hb : '[' ∉ h6 ∧ ']' ∉ h6) (hp : Plain port) :
+    peerOf ('[' :: h6 ++ ']' :: ':' :: port) = h6 := by
+  obtain ⟨b1, b2⟩ := hb
+  obtain ⟨p1, p2, p3⟩ := hp
+  unfold peerOf splitHostPort
+  have hl : lastIdxOf ':' ('[' :: h6 ++ ']' :: ':' :: port) = some (h6.length + 2) := by
+    have := lemma_lastIdxOf_append ':' ('[' :: h6 ++ [']']) port p1
+    simpa [List.append_assoc] using this
+  have hi : idxOf ']' ('[' :: h6 ++ ']' :: ':' :: port) = some (h6.length + 1) := by
+    have := lemma_idxOf_append ']' ('[' :: h6) (':' :: port) (by simp [b2])
+    simpa using this
+  rw [hl]
+  simp only [List.cons_append, List.head?_cons, beq_self_eq_true, if_true, List.isEmpty_cons,
+    Bool.false_eq_true, if_false]
+  have hi' : idxOf ']' ('[' :: (h6 ++ ']' :: ':' :: port)) = some (h6.length + 1) := by simpa using hi
+  rw [hi']
+  have hlen : ¬ (h6.length + 1 + 1 = ('[' :: (h6 ++ ']' :: ':' :: port)).length) := by
+    simp only [List.length_cons, List.length_append]; omega
+  simp only [beq_iff_eq, hlen, if_false, if_true]
+  have e2 : idxOf '[' (List.drop 1 ('[' :: (h6 ++ ']' :: ':' :: port))) = none := by
+    simp only [List.drop_succ_cons, List.drop_zero]
+    exact lemma_idxOf_none _ _ (by simp [b1, p2])
+  have e3 : idxOf ']' (List.drop (h6.length + 1 + 1) ('[' :: (h6 ++ ']' :: ':' :: port))) = none := by
+    have : List.drop (h6.length + 1 + 1) ('[' :: (h6 ++ ']' :: ':' :: port)) = ':' :: port := by
+      simp [List.drop_append]
+    rw [this]
+    exact lemma_idxOf_none _ _ (by simp [p3])
+  rw [e2, e3]
+  simp
+
+/-- **bare address** — a RemoteAddr without any colon (bare IPv4, a name) is returned as it is -/
+theorem peerOf_bare (addr : Bytes) (h : ':' ∉ addr) : peerOf addr = addr := by
+  unfold peerOf
+  split
+  · rename_i he
+    have : addr = [] := by simpa using he
+    simp [this]
+  · have : splitHostPort addr = none := by
+      unfold splitHostPort lastIdxOf
+      rw [lemma_idxOf_none ':' addr.reverse (by simpa using h)]
+      rfl
+    rw [this]
+
+/-- **bare IPv6** — a RemoteAddr with two or more colons and no brackets (a bare IPv6 literal) makes
+    `net.SplitHostPort` fail ("too many colons") and is returned as it is -/
+theorem peerOf_bare_v6 (a b c : Bytes) (hc : ':' ∉ c) (hb : '[' ∉ a ++ ':' :: b ++ ':' :: c) :
+    peerOf (a ++ ':' :: b ++ ':' :: c) = a ++ ':' :: b ++ ':' :: c := by
+  unfold peerOf
+  split
+  · rename_i he; simp at he
+  · have hs : splitHostPort (a ++ ':' :: b ++ ':' :: c) = none := by
+      unfold splitHostPort
+      rw [lemma_lastIdxOf_append ':' (a ++ ':' :: b) c hc]
+      have hhead : ((a ++ ':' :: b ++ ':' :: c).head? == some '[') = false := by
+        cases a with
+        | nil => simp
+        | cons x xs =>
+          simp only [List.cons_append, List.head?_cons, beq_eq_false_iff_ne, ne_eq, Option.some.injEq]
+          intro e; exact hb (by simp [e])
+      simp only [hhead, Bool.false_eq_true, if_false, List.take_left']
+      have : (idxOf ':' (a ++ ':' :: b)).isSome = true := (lemma_isSome_idxOf _ _).mpr (by simp)
+      simp [this]
+    rw [hs]
+
+/-- **Non-interference from the wire.** Whatever the RemoteAddr form and whatever the header text: if the
+    peer (`clientIPFromRemoteAddr(RemoteAddr)`) is not trusted, `ClientIP()` is that peer. -/
+theorem untrusted_peer_noninterference_wire (w : WireReq) (res : Bytes)
+    (hpt : peerTrusted w.tbl (peerOf w.remoteAddr) = some false) (hres : clientIPWire w = some res) :
+    res = peerOf w.remoteAddr := by
+  unfold clientIPWire WireReq.toRaw at hres
+  simp only [hpt, Option.bind_eq_bind, Option.bind_some, Option.pure_def] at hres
+  exact untrusted_peer_noninterference_raw _ rfl res hres
+
+/-- the three forms on concrete addresses (also non-vacuity of the four lemmas above) -/
+example : peerOf "203.0.113.7:443".toList = "203.0.113.7".toList ∧
+          peerOf "[2001:db8::1%eth0]:8080".toList = "2001:db8::1%eth0".toList ∧
+          peerOf "10.0.0.1".toList = "10.0.0.1".toList ∧
+          peerOf "2001:db8::1".toList = "2001:db8::1".toList ∧
+          peerOf "[::1]".toList = "[::1]".toList ∧ peerOf [] = [] := by decide
 
 end Rivaas.C18
